@@ -88,6 +88,75 @@ fn check_case(case: &Value, stats: &mut Stats) -> CheckResult {
     Ok(())
 }
 
+/// Two different move orders that reach the same position (same start, same length, same final raw
+/// board, same outcome) are different games: the chains must compare unequal.
+fn transposition_check(case: &Value, stats: &mut Stats) -> CheckResult {
+    use crate::refmodel::*;
+    let (b, r) = match case_board(case, stats)? {
+        Some(x) => x,
+        None => return Ok(()),
+    };
+    let sel: Vec<u64> = case["sel"].as_array().map(|a| a.iter().map(|x| x.as_u64().unwrap_or(0)).collect()).unwrap_or_default();
+    if sel.len() < 4 {
+        return Ok(());
+    }
+    let l0 = r.legal();
+    if l0.len() < 2 {
+        return Ok(());
+    }
+    let a = l0[(sel[0] as usize * l0.len()) >> 8];
+    let bb = l0[(sel[1] as usize * l0.len()) >> 8];
+    if a == bb {
+        return Ok(());
+    }
+    let play = |seq: &[RefMove]| -> Option<RefPos> {
+        let mut p = r.clone();
+        for m in seq {
+            if !p.legal().contains(m) {
+                return None;
+            }
+            p = p.apply(m);
+        }
+        Some(p)
+    };
+    let lx = r.apply(&a).legal();
+    if lx.is_empty() {
+        return Ok(());
+    }
+    let x = lx[(sel[2] as usize * lx.len()) >> 8];
+    let p1 = match play(&[a, x, bb]) {
+        Some(p) => p,
+        None => return Ok(()),
+    };
+    let ly = p1.legal();
+    if ly.is_empty() {
+        return Ok(());
+    }
+    let y = ly[(sel[3] as usize * ly.len()) >> 8];
+    let (f1, f2) = match (play(&[a, x, bb, y]), play(&[bb, x, a, y])) {
+        (Some(f1), Some(f2)) => (f1, f2),
+        _ => return Ok(()),
+    };
+    if f1 != f2 {
+        return Ok(()); // includes the counters: the raw boards must be identical
+    }
+    let build = |seq: &[RefMove]| -> Result<MoveChain, Failure> {
+        let mut c = MoveChain::new(b.clone());
+        for m in seq {
+            c.push(mv_to_lib(m).map_err(Failure::new)?).map_err(|e| Failure::new(format!("legal move {} refused: {}", m.uci(), e)))?;
+        }
+        Ok(c)
+    };
+    let (c1, c2) = (build(&[a, x, bb, y])?, build(&[bb, x, a, y])?);
+    ensure!(c1.last() == c2.last(), "harness: transposition does not reach the same position");
+    ensure!(c1 != c2 && c2 != c1, "two chains with different move lists ({} {} {} {} vs {} {} {} {}) compare equal", a.uci(), x.uci(), bb.uci(), y.uci(), bb.uci(), x.uci(), a.uci(), y.uci());
+    let c1b = build(&[a, x, bb, y])?;
+    ensure!(c1 == c1b, "two chains with the same start, moves and outcome compare unequal");
+    stats.label("transposed_pair");
+    stats.nontrivial(&(r.rep_key(), a, bb, x, y));
+    Ok(())
+}
+
 pub fn property() -> Property {
     Property {
         id: "C13",
@@ -99,7 +168,7 @@ pub fn property() -> Property {
                (raw + internal consistency) equal the model; refused pushes change nothing; pop returns the latest accepted move and clears \
                the outcome; after pops/lists/clones and at the end the whole move list and a replay through Board::make_move are compared \
                in full. Equality: a chain rebuilt from the UCI text compares equal; changing the outcome, the length, one move or the \
-               start position's move number makes it unequal. push/set_outcome/set_auto_outcome are issued only while no outcome is \
+               start position's move number makes it unequal; equality_transpositions: two move orders a x b y / b x a y reaching an identical position (same start, length, outcome) must compare unequal. push/set_outcome/set_auto_outcome are issued only while no outcome is \
                stored (documented precondition). Non-trivial = history with (a refused push and a pop) or an outcome op; distinct by case.",
         assumptions: &["reference apply() and legal(); push / set_outcome / set_auto_outcome respect the documented 'outcome must be unset' precondition"],
         subchecks: vec![SubCheck {
@@ -112,6 +181,15 @@ pub fn property() -> Property {
                 "uci_list_bad_token", "via_san_str", "via_uci_value", "via_san_value", "eq_one_move_differs", "eq_start_differs", "clone",
                 "refused_king_left_attacked", "pop_on_empty",
             ],
+            regressions: &[],
+            exhaustive: false,
+        },
+        SubCheck {
+            name: "equality_transpositions",
+            driver: Driver::Generated { gen: crate::props::c05::gen_transposition_case, genome_len: 200, quick: 200_000, thorough: 4_000_000 },
+            check: transposition_check,
+            configs: Configs::ReleaseOnly,
+            required: &["transposed_pair"],
             regressions: &[],
             exhaustive: false,
         }],
